@@ -1,5 +1,5 @@
 #!/venv/bin/python
-"""Reproductions of the genuine defects D1..D18 against the real code in /repo.
+"""Reproductions of the genuine defects D1..D23 against the real code in /repo.
 
 usage: findings/repro.py [D1 D2 ...]     exit 1 if any selected defect is present.
 Each function returns None when the behaviour is right, or a string describing the failing
@@ -390,7 +390,35 @@ def D22():
                 % (len(b), s.total_length, b[2] * 256 + b[3]))
 
 
-ALL = ['D%d' % i for i in range(1, 23)]
+def D23():
+    # an accepting entity (real TCP): the peer connects and never sends its first PDU; the entity's own timeout is
+    # longer than ARTIM, so only the provider's AA-2 can close the connection in time
+    import socket, time
+    s2.uninstall()
+
+    class Srv(aem.AE):
+        pass
+    srv = Srv('SRV', 0)
+    srv.timeout = 40
+    srv.add_scp(sc.verification_scp)
+    with srv:
+        c = socket.create_connection(('127.0.0.1', srv.server_address[1]), timeout=5)
+        t0 = time.time()
+        c.settimeout(14)
+        try:
+            got = c.recv(16)
+        except socket.timeout:
+            got = None
+        except OSError:
+            got = b''
+        took = time.time() - t0
+        c.close()
+    if got is None:
+        return ('accepting entity, peer silent after connecting: ARTIM (10 s) expired, the provider went idle, but the '
+                'transport connection was still open after %.0f s (the handler\'s file object keeps the socket alive)' % took)
+
+
+ALL = ['D%d' % i for i in range(1, 24)]
 
 if __name__ == '__main__':
     sel = sys.argv[1:] or ALL
